@@ -130,6 +130,21 @@ def run(tier):
         seen.add(k)
         # reproduce: the whole history of that event up to it, in a fresh process (plus its one-shot if that is what differed)
         hist = [onedim.strip(e) | ({"skey": e["skey"]} if "skey" in e else {}) for e in evs if e["hist"] == ev["hist"] and e["i"] <= (ev["i"] if ev["i"] < 10 ** 6 else 10 ** 9)]
+        if b["why"] in ("nondeterministic", "fresh-process-differs"):
+            # run-to-run variation: the same call repeated many times in up to 8 fresh processes; two different observations reproduce it.
+            # If that does not show it, fall through to replaying the whole history (order-dependent state).
+            one = dict(onedim.strip(src), skey=src.get("skey", ""), proj="digest", op="encode")
+            shown = False
+            for attempt in range(8):
+                rep = [dict(one, hid=k + 1) for k in range(12)]
+                subr = vlib.run_drive(drive, rep, chk.work, name="repro-rep")
+                _, badr, _, _ = vlib.validate_traces(chk.work, "TraceHist", "TraceHist.cfg", [subr], timeout=3000)
+                if any(x["why"] == "nondeterministic" for x in badr):
+                    chk.report(k, "%s: the same call gives different barcodes from one call to the next" % k, dict(jobs=rep, expect="nondeterministic", attempts=8))
+                    shown = True
+                    break
+            if shown:
+                continue
         sub = vlib.run_drive(drive, hist, chk.work, name="repro")
         if ev["op"] == "oneshot":
             o = vlib.run_drive(drive, [dict(onedim.strip(ev), op="encode", hid=0)], chk.work, name="shot")[0]
@@ -148,9 +163,13 @@ def replay(path):
     r = json.load(open(path))["replay"]
     chk = vlib.Check("C15", "quick")
     drive = vlib.build_harness(chk.work)
-    evs = vlib.run_drive(drive, r["jobs"], chk.work)
-    _, bad, _, _ = vlib.validate_traces(chk.work, "TraceHist", "TraceHist.cfg", [evs])
-    hit = [b for b in bad if b["why"] == r.get("expect", b["why"])]
+    hit = []
+    for attempt in range(r.get("attempts", 1)):
+        evs = vlib.run_drive(drive, r["jobs"], chk.work)
+        _, bad, _, _ = vlib.validate_traces(chk.work, "TraceHist", "TraceHist.cfg", [evs])
+        hit = [b for b in bad if b["why"] == r.get("expect", b["why"])]
+        if hit:
+            break
     for b in hit:
         print("REPRODUCED l=%d why=%s" % (b["l"], b["why"]))
     return 1 if hit else 0
